@@ -50,6 +50,9 @@ class Protocol(Component):
         if event.name.endswith('_success'):
             source_event = args[0]
 
+            if getattr(source_event, 'node_protocol', None) is not self:
+                return  # received through another connection
+
             if getattr(args[0], 'node_call_id', False) is not False:
                 self.send_result(source_event.node_call_id, source_event.value)
 
@@ -113,6 +116,7 @@ class Protocol(Component):
             event.success_channels = ('node_result',)
             event.node_call_id = id
             event.node_sock = self.__sock
+            event.node_protocol = self
 
             self.fire(event, *event.channels)
 
